@@ -98,6 +98,53 @@ func robOpen(path byte, src interface {
 	return fi.MakeReader(opt)
 }
 
+var robPagesRef = regexp.MustCompile(`/Pages (\d+ 0 R)`)
+
+// robNoPages returns a copy of a human-readable file whose catalog has
+// "/Pages 0" (same length) instead of the reference to the page tree.
+func robNoPages(data []byte) []byte {
+	m := robPagesRef.FindSubmatchIndex(data)
+	if m == nil {
+		return nil
+	}
+	out := append([]byte(nil), data...)
+	for i := m[2]; i < m[3]; i++ {
+		out[i] = ' '
+	}
+	out[m[2]] = '0'
+	return out
+}
+
+// robCatalogLines: the step after DecodeCatalog in NewReader (seq 0) and
+// MakeReader (seq 1), Model/ROBErr.lean:catalogStep: with and without a usable
+// /Pages entry, all three modes.  A nil reader with a nil error is the former
+// finding ROB-4.
+func robCatalogLines(c *Ctx, doc *robDoc) {
+	variants := []struct {
+		pages string
+		data  []byte
+	}{{"1", doc.Data}, {"0", robNoPages(doc.Data)}}
+	for _, v := range variants {
+		if v.data == nil {
+			continue
+		}
+		for seq, path := range []byte{'N', 'Q'} {
+			for mode := 0; mode < 3; mode++ {
+				opt := &pdf.ReaderOptions{ErrorHandling: pdf.ReaderErrorHandling(mode)}
+				rd, err := robOpen(path, bytes.NewReader(v.data), int64(len(v.data)), opt)
+				rep := rd != nil && len(rd.Errors) > 0
+				line := fmt.Sprintf("ROB catalog %d %d N %s", seq, mode, v.pages)
+				c.Emit(line, fmt.Sprintf("nil=%s err=%s rep=%s", b01(rd == nil), robClass(err), b01(rep)))
+				c.Case(fmt.Sprintf("catalog %c %d %s %s", path, mode, v.pages, doc.Spec), true)
+				c.Stat("exit_catalog_pages" + v.pages)
+				if rd == nil && err == nil {
+					c.Violate("nilnil", "C05-nil-result-without-error", fmt.Sprintf("open path %c mode %d returned (nil, nil) for a catalog without /Pages", path, mode), hexWire(v.data))
+				}
+			}
+		}
+	}
+}
+
 func robExitRun(c *Ctx) {
 	r := c.R.Fork()
 	nDocs := 3
@@ -113,6 +160,7 @@ func robExitRun(c *Ctx) {
 			continue
 		}
 		broken := robBreakInfo(doc.Data)
+		robCatalogLines(c, doc)
 		for _, path := range []byte{'N', 'Q'} {
 			for mode := 0; mode < 3; mode++ {
 				opt := &pdf.ReaderOptions{ErrorHandling: pdf.ReaderErrorHandling(mode)}
